@@ -840,15 +840,21 @@ where
                         self.wrap_children(elems, slot_flag, slots)
                     }
                 }
-                expr @ Expr::Fn(..) | expr @ Expr::Arrow(..) => Expr::Object(ObjectLit {
-                    span: DUMMY_SP,
-                    props: vec![PropOrSpread::Prop(Box::new(Prop::KeyValue(KeyValueProp {
-                        key: PropName::Ident(quote_ident!("default")),
-                        value: Box::new(expr.clone()),
-                    })))],
-                }),
+                expr @ Expr::Fn(..) | expr @ Expr::Arrow(..) => {
+                    let mut props =
+                        vec![PropOrSpread::Prop(Box::new(Prop::KeyValue(KeyValueProp {
+                            key: PropName::Ident(quote_ident!("default")),
+                            value: Box::new(expr.clone()),
+                        })))];
+                    Self::merge_slots(&mut props, slots);
+                    Expr::Object(ObjectLit {
+                        span: DUMMY_SP,
+                        props,
+                    })
+                }
                 Expr::Object(ObjectLit { props, .. }) => {
                     let mut props = props.clone();
+                    Self::merge_slots(&mut props, slots);
                     if self.options.optimize {
                         props.push(PropOrSpread::Prop(Box::new(Prop::KeyValue(KeyValueProp {
                             key: PropName::Ident(quote_ident!("_")),
@@ -909,17 +915,7 @@ where
             })),
         })))];
 
-        if let Some(expr) = slots {
-            match *expr {
-                Expr::Object(ObjectLit {
-                    props: slot_props, ..
-                }) => props.extend_from_slice(&slot_props),
-                _ => props.push(PropOrSpread::Spread(SpreadElement {
-                    dot3_token: DUMMY_SP,
-                    expr,
-                })),
-            }
-        }
+        Self::merge_slots(&mut props, slots);
 
         if self.options.optimize {
             props.push(PropOrSpread::Prop(Box::new(Prop::KeyValue(KeyValueProp {
@@ -936,6 +932,21 @@ where
             span: DUMMY_SP,
             props,
         })
+    }
+
+    /// Puts the entries of `v-slots` beside the slots derived from children.
+    fn merge_slots(props: &mut Vec<PropOrSpread>, slots: Option<Box<Expr>>) {
+        if let Some(expr) = slots {
+            match *expr {
+                Expr::Object(ObjectLit {
+                    props: slot_props, ..
+                }) => props.extend_from_slice(&slot_props),
+                _ => props.push(PropOrSpread::Spread(SpreadElement {
+                    dot3_token: DUMMY_SP,
+                    expr,
+                })),
+            }
+        }
     }
 
     fn generate_unique_slot_ident(&mut self) -> Ident {
